@@ -18,6 +18,8 @@
 #include <math.h>
 #include <carquet/carquet.h>
 #include "thrift/parquet_types.h"
+#include "core/buffer.h"
+#include "core/arena.h"
 
 typedef struct carquet_statistics_builder carquet_statistics_builder_t;
 carquet_statistics_builder_t* carquet_statistics_builder_create(carquet_physical_type_t, int32_t);
@@ -31,6 +33,13 @@ carquet_status_t carquet_statistics_compare(const parquet_statistics_t*, carquet
 carquet_status_t carquet_statistics_range_overlaps(const parquet_statistics_t*, carquet_physical_type_t, const void*,
                                                    const void*, size_t, bool*);
 typedef struct carquet_column_index_builder carquet_column_index_builder_t;
+typedef struct carquet_offset_index_builder carquet_offset_index_builder_t;
+void carquet_column_index_set_boundary_order(carquet_column_index_builder_t*, int32_t);
+carquet_status_t carquet_column_index_serialize(const carquet_column_index_builder_t*, carquet_buffer_t*);
+carquet_offset_index_builder_t* carquet_offset_index_builder_create(bool);
+void carquet_offset_index_builder_destroy(carquet_offset_index_builder_t*);
+carquet_status_t carquet_offset_index_add_page(carquet_offset_index_builder_t*, int64_t, int32_t, int64_t, int32_t);
+carquet_status_t carquet_offset_index_serialize(const carquet_offset_index_builder_t*, carquet_buffer_t*);
 carquet_column_index_builder_t* carquet_column_index_builder_create(carquet_physical_type_t, int32_t);
 void carquet_column_index_builder_destroy(carquet_column_index_builder_t*);
 carquet_status_t carquet_column_index_add_page(carquet_column_index_builder_t*, int64_t, const void*, int32_t,
@@ -41,6 +50,7 @@ typedef struct carquet_page_writer carquet_page_writer_t;
 void carquet_page_writer_reset(carquet_page_writer_t*);
 bool carquet_page_writer_get_statistics(const carquet_page_writer_t*, const uint8_t**, const uint8_t**, size_t*, int64_t*);
 int64_t carquet_page_writer_null_count(const carquet_page_writer_t*);
+void carquet_page_writer_set_statistics(carquet_page_writer_t*, bool);
 carquet_page_writer_t* carquet_page_writer_create(carquet_physical_type_t, carquet_encoding_t, carquet_compression_t,
                                                   int16_t, int16_t, int32_t);
 void carquet_page_writer_destroy(carquet_page_writer_t*);
@@ -155,7 +165,9 @@ static void do_bld(void) {
     }
     if (first) putchar('-');
     parquet_statistics_t s;
-    carquet_statistics_build(b, NULL, &s);
+    /* every other case builds into an arena (the two allocation paths of carquet_statistics_build) */
+    carquet_arena_t arena; int use_arena = (nall & 1) && carquet_arena_init(&arena) == CARQUET_OK;
+    carquet_statistics_build(b, use_arena ? &arena : NULL, &s);
     printf(" nulls=%lld min=", (long long)(s.has_null_count ? s.null_count : -1));
     put_opt(s.min_value, s.min_value_len);
     fputs(" max=", stdout);
@@ -171,8 +183,54 @@ static void do_bld(void) {
         if (s.min_value && truth_cmp(type, &mn, &all[i]) > 0) { bad = "min-above-value"; badi = i; }
         else if (s.max_value && truth_cmp(type, &all[i], &mx) > 0) { bad = "max-below-value"; badi = i; }
     }
+    /* the builder's statistics through carquet's own metadata writer into a file and back through the public reader:
+     * carquet_reader_column_statistics must hand out the same bounds and null count */
+    {
+        parquet_file_metadata_t md; memset(&md, 0, sizeof md);
+        parquet_schema_element_t se[2]; memset(se, 0, sizeof se);
+        se[0].name = (char*)"schema"; se[0].num_children = 1;
+        se[1].name = (char*)"c"; se[1].has_type = true; se[1].type = (carquet_physical_type_t)type;
+        se[1].has_repetition = true; se[1].repetition_type = CARQUET_REPETITION_OPTIONAL; se[1].type_length = tlen > 0 ? tlen : 0;
+        parquet_column_chunk_t cc; memset(&cc, 0, sizeof cc);
+        carquet_encoding_t enc0 = CARQUET_ENCODING_PLAIN; char* path0 = (char*)"c";
+        cc.file_offset = 4; cc.has_metadata = true; cc.metadata.type = (carquet_physical_type_t)type;
+        cc.metadata.encodings = &enc0; cc.metadata.num_encodings = 1; cc.metadata.path_in_schema = &path0; cc.metadata.path_len = 1;
+        cc.metadata.num_values = nall + nulls; cc.metadata.data_page_offset = 4;
+        cc.metadata.has_statistics = true; cc.metadata.statistics = s;
+        parquet_row_group_t rg; memset(&rg, 0, sizeof rg); rg.columns = &cc; rg.num_columns = 1; rg.num_rows = nall + nulls;
+        md.version = 1; md.schema = se; md.num_schema_elements = 2; md.num_rows = nall + nulls; md.row_groups = &rg; md.num_row_groups = 1;
+        carquet_buffer_t fb; carquet_buffer_init(&fb);
+        carquet_error_t e1 = CARQUET_ERROR_INIT;
+        carquet_status_t wst = parquet_write_file_metadata(&md, &fb, &e1);
+        if (wst != CARQUET_OK) printf(" RT=write:%d", (int)wst);
+        else {
+            size_t fl = fb.size, tot = 4 + fl + 8;
+            uint8_t* file = malloc(tot);
+            memcpy(file, "PAR1", 4); memcpy(file + 4, fb.data, fl);
+            file[4 + fl] = (uint8_t)fl; file[5 + fl] = (uint8_t)(fl >> 8); file[6 + fl] = (uint8_t)(fl >> 16); file[7 + fl] = (uint8_t)(fl >> 24);
+            memcpy(file + 8 + fl, "PAR1", 4);
+            carquet_error_t e2 = CARQUET_ERROR_INIT;
+            carquet_reader_t* r = carquet_reader_open_buffer(file, tot, NULL, &e2);
+            if (!r) printf(" RT=open:%d", (int)e2.code);
+            else {
+                carquet_column_statistics_t cs; memset(&cs, 0, sizeof cs);
+                carquet_status_t st = carquet_reader_column_statistics(r, 0, 0, &cs);
+                int want = s.min_value && s.min_value_len > 0 && s.max_value && s.max_value_len > 0;
+                if (st != CARQUET_OK) printf(" RT=status:%d", (int)st);
+                else if (!cs.has_null_count || cs.null_count != s.null_count) printf(" RT=null_count:%lld", (long long)cs.null_count);
+                else if ((cs.has_min_max ? 1 : 0) != want) printf(" RT=has_min_max:%d", cs.has_min_max ? 1 : 0);
+                else if (want && (cs.min_value_size != s.min_value_len || cs.max_value_size != s.max_value_len ||
+                                  memcmp(cs.min_value, s.min_value, (size_t)s.min_value_len) || memcmp(cs.max_value, s.max_value, (size_t)s.max_value_len)))
+                    fputs(" RT=bounds-differ", stdout);
+                else fputs(" RT=same", stdout);
+                carquet_reader_close(r);
+            }
+            free(file);
+        }
+        carquet_buffer_destroy(&fb);
+    }
     if (bad) printf(" P=0:%s:%d\n", bad, badi); else puts(" P=1");
-    free(s.min_value); free(s.max_value);
+    if (use_arena) carquet_arena_destroy(&arena); else { free(s.min_value); free(s.max_value); }
     for (int i = 0; i < nall; i++) free(all[i].base);
     free(all);
     carquet_statistics_builder_destroy(b);
@@ -184,6 +242,7 @@ static void do_pw(void) {
     carquet_page_writer_t* w = carquet_page_writer_create((carquet_physical_type_t)type, CARQUET_ENCODING_PLAIN,
                                                           CARQUET_COMPRESSION_UNCOMPRESSED, (int16_t)maxdef, 0, 0);
     if (!w) { puts("ERR oom"); return; }
+    if (h_ntok == 5 && !strcmp(h_tok[4], "nostats")) carquet_page_writer_set_statistics(w, false);
     char* save = NULL;
     fputs("OK st=", stdout);
     int first = 1;
@@ -236,6 +295,14 @@ static void do_rd(void) {
                (long long)(cs.has_null_count ? cs.null_count : 0), (long long)cs.num_values);
         if (cs.has_min_max) { h_puthex(cs.min_value, (size_t)cs.min_value_size); putchar(':'); h_puthex(cs.max_value, (size_t)cs.max_value_size); }
         else fputs("-:-", stdout);
+    }
+    if (!nrg) putchar('-');
+    fputs(" dc=", stdout);
+    for (int i = 0; i < nrg; i++) {
+        carquet_column_statistics_t cs; memset(&cs, 0, sizeof cs);
+        carquet_status_t st = carquet_reader_column_statistics(r, i, col, &cs);
+        if (st != CARQUET_OK) printf("%sE", i ? ";" : ""); else if (!cs.has_distinct_count) printf("%s-", i ? ";" : "");
+        else printf("%s%lld", i ? ";" : "", (long long)cs.distinct_count);
     }
     if (!nrg) putchar('-');
     /* out-of-range row groups */
@@ -400,11 +467,43 @@ static void do_pmh(void) {
             free(lo.base); free(hi.base);
         }
     }
+    /* the ColumnIndex as carquet serialises it (boundary_order = number of pages mod 3) */
+    {
+        carquet_column_index_set_boundary_order(b, np % 3);
+        carquet_buffer_t ob; carquet_buffer_init(&ob);
+        carquet_status_t st = carquet_column_index_serialize(b, &ob);
+        printf(" ser=%d:", (int)st);
+        if (st == CARQUET_OK) h_puthex(ob.data, ob.size); else putchar('-');
+        carquet_buffer_destroy(&ob);
+    }
     putchar('\n');
     free(qcopy);
     for (int i = 0; i < np; i++) free_vals(data[i], nd[i]);
     free(data); free(nd);
     carquet_column_index_builder_destroy(b);
+}
+
+/* ------------------------------------------------------------------ oix: offset index builder and its serialisation */
+/* oix <track 0|1> <pages>   page = offset/compressed_size/first_row_index/uncompressed_size */
+static void do_oix(void) {
+    int track = atoi(h_tok[1]);
+    carquet_offset_index_builder_t* b = carquet_offset_index_builder_create(track != 0);
+    if (!b) { puts("ERR oom"); return; }
+    int bad = 0, n = 0;
+    char* save = NULL;
+    if (strcmp(h_tok[2], "-"))
+    for (char* pg = strtok_r(h_tok[2], ";", &save); pg; pg = strtok_r(NULL, ";", &save), n++) {
+        long long o, f; long c, u;
+        if (sscanf(pg, "%lld/%ld/%lld/%ld", &o, &c, &f, &u) != 4) { bad++; continue; }
+        if (carquet_offset_index_add_page(b, o, (int32_t)c, f, (int32_t)u) != CARQUET_OK) bad++;
+    }
+    carquet_buffer_t ob; carquet_buffer_init(&ob);
+    carquet_status_t st = carquet_offset_index_serialize(b, &ob);
+    printf("OK n=%d addbad=%d ser=%d:", n, bad, (int)st);
+    if (st == CARQUET_OK) h_puthex(ob.data, ob.size); else putchar('-');
+    putchar('\n');
+    carquet_buffer_destroy(&ob);
+    carquet_offset_index_builder_destroy(b);
 }
 
 /* ------------------------------------------------------------------ pmw: column index built from real pages */
@@ -513,7 +612,8 @@ static void do_file(void) {
     carquet_writer_options_t wo; carquet_writer_options_init(&wo);
     wo.compression = CARQUET_COMPRESSION_UNCOMPRESSED;
     wo.write_statistics = true;
-    if (h_ntok == 7 && atoi(h_tok[6]) > 0) wo.page_size = atoi(h_tok[6]);
+    if (h_ntok >= 7 && atoi(h_tok[6]) > 0) wo.page_size = atoi(h_tok[6]);
+    if (h_ntok == 8) wo.compression = (carquet_compression_t)atoi(h_tok[7]);   /* page statistics do not depend on the codec */
     carquet_writer_t* w = carquet_writer_create_file(f, sc, &wo, &err);
     if (!w) { printf("ERR writer %d\n", (int)err.code); fclose(f); free(mem); carquet_schema_free(sc); free(probe.base); return; }
     /* ground truth per row group, computed while the data goes in */
@@ -593,14 +693,15 @@ int main(void) {
         h_split();
         if (h_ntok == 0) { puts("ERR empty"); continue; }
         if (!strcmp(h_tok[0], "bld") && h_ntok == 4) do_bld();
-        else if (!strcmp(h_tok[0], "pw") && h_ntok == 4) do_pw();
+        else if (!strcmp(h_tok[0], "pw") && (h_ntok == 4 || h_ntok == 5)) do_pw();
         else if (!strcmp(h_tok[0], "rd") && h_ntok == 9) do_rd();
         else if (!strcmp(h_tok[0], "cmp") && h_ntok == 6) do_cmp();
         else if (!strcmp(h_tok[0], "ovl") && h_ntok == 7) do_ovl();
         else if (!strcmp(h_tok[0], "pm") && h_ntok == 7) do_pm();
-        else if (!strcmp(h_tok[0], "file") && (h_ntok == 6 || h_ntok == 7)) do_file();
+        else if (!strcmp(h_tok[0], "file") && (h_ntok >= 6 && h_ntok <= 8)) do_file();
         else if (!strcmp(h_tok[0], "pmw") && h_ntok == 8) do_pmw();
         else if (!strcmp(h_tok[0], "pmh") && h_ntok == 4) do_pmh();
+        else if (!strcmp(h_tok[0], "oix") && h_ntok == 3) do_oix();
         else puts("ERR unknown-op");
         fflush(stdout);
     }
